@@ -86,13 +86,14 @@ int Net::bind(SockEnt *s, const Addr &a)
 {
     s->local = a;
     if (s->local.family == 0) s->local.family = s->domain;
-    if (s->local.port == 0 && s->type == SOCK_DGRAM) s->local.port = (uint16_t)nextEphemeral++;
+    if (s->local.port == 0 && (s->type == SOCK_DGRAM || inIpcCreate)) s->local.port = (uint16_t)nextEphemeral++;
     return 0;
 }
 
 int Net::listen(SockEnt *s)
 {
     s->kind = SockEnt::LISTEN;
+    if (inIpcCreate) { ipcListenFd = s->fd; return 0; } // the child end of an IPC_TCP_SOCKET helper: not a service port
     hist("LISTEN\t%d\t%s", s->fd, s->local.str().c_str());
     return 0;
 }
@@ -102,6 +103,14 @@ static uint64_t connLat(Conn *c) { return c->rng.range(c->latLo, c->latHi); }
 int Net::connect(SockEnt *s, const Addr &a)
 {
     if (s->type == SOCK_DGRAM) { s->remote = a; return 0; }
+    if (tcpHelper.armed && a.port == tcpHelper.port) { // parent end of an IPC_TCP_SOCKET helper connecting to its "child"
+        tcpHelper.armed = false;
+        Conn *c = newConn('h', "tcphelper", "helper");
+        c->latLo = 5; c->latHi = 50; c->window = 32768; c->state = Conn::ESTABLISHED;
+        s->kind = SockEnt::CONN; s->conn = c; c->sq = s; s->remote = a;
+        makeHelperProc(c, tcpHelper.name, tcpHelper.token, tcpHelper.pid);
+        return 0;
+    }
     if (s->conn) { // second connect() on the same socket
         if (s->conn->state == Conn::ESTABLISHED) { errno = EISCONN; return -1; }
         if (s->conn->state == Conn::FAILED) { errno = s->conn->connErr; return -1; }
@@ -798,18 +807,32 @@ int Net::attachHelper(const std::string &name, const std::string &token)
         A->kind = SockEnt::CONN; A->conn = pc; pc->sq = A;
         W->kind = SockEnt::CONN; W->conn = pc;
     }
-    if (!A || !A->conn) return -1;
     HelperSpec *spec = nullptr;
     for (auto &h : g_scn.helpers) if (h.token == token) spec = &h;
     if (!spec && token != "unlinkd") { hist("HELPER-UNKNOWN\t%s\t%s", name.c_str(), token.c_str()); return -1; }
+    if ((!A || !A->conn) && ipcListenFd >= 0) { // IPC_TCP_SOCKET: the parent will connect() to the listener's address next
+        SockEnt *L = sock(ipcListenFd); ipcListenFd = -1;
+        if (!L) return -1;
+        tcpHelper.name = name; tcpHelper.token = token; tcpHelper.pid = nextPid++; tcpHelper.port = L->local.port; tcpHelper.armed = true;
+        return tcpHelper.pid;
+    }
+    if (!A || !A->conn) return -1;
     Conn *c = A->conn;
+    Proc *p = makeHelperProc(c, name, token, nextPid++);
+    return p->helperPid;
+}
+
+Proc *Net::makeHelperProc(Conn *c, const std::string &name, const std::string &token, int pid)
+{
+    HelperSpec *spec = nullptr;
+    for (auto &h : g_scn.helpers) if (h.token == token) spec = &h;
     int n = spec ? ++spec->spawned : 1;
     c->label = "helper:" + token + "#" + std::to_string(n); c->rng.seed(hashStr(g_scn.seed, c->label)); c->peerName = token;
-    Proc *p = new Proc; p->id = (int)procs.size() + 1; p->name = token; p->conn = c; p->helper = spec; p->phase = Proc::HELPER; p->helperPid = nextPid++;
+    Proc *p = new Proc; p->id = (int)procs.size() + 1; p->name = token; p->conn = c; p->helper = spec; p->phase = Proc::HELPER; p->helperPid = pid;
     c->proc = p; procs.push_back(p);
     c->srx += "hi there\n";
-    hist("CONN\t%d\th\t%s\t%s\t%d\t%d", c->id, token.c_str(), name.c_str(), A->fd, p->helperPid);
-    return p->helperPid;
+    hist("CONN\t%d\th\t%s\t%s\t%d\t%d", c->id, token.c_str(), name.c_str(), c->sq ? c->sq->fd : -1, p->helperPid);
+    return p;
 }
 
 void Net::helperInput(Proc *p)
